@@ -49,6 +49,13 @@ pub fn run(out: &mut Out, rng: &mut Rng, thorough: bool) {
 		items.push((Fmt::Json, j.to_vec()));
 	}
 	items.push((Fmt::Msgpack, b"\x91\x01\x81\xa1a\x02\x90".to_vec()));
+	// YAML in UTF-16 / UTF-32 (a fault may strike inside a code unit or between
+	// the two halves of a surrogate pair).
+	for enc in 1..=4u8 {
+		for (text, bom) in [("a: 1\nb: [1, 2, \u{e9}]\n---\n- x\u{1F600}y\n", false), ("k: v\n---\n- \u{20ac}\n", true)] {
+			items.push((Fmt::Yaml, crate::engines::encoding::encode_text(text, enc, bom)));
+		}
+	}
 	for (f, input) in &items {
 		for from in [Some(*f), None] {
 			let tos: Vec<Fmt> = if thorough { ALL_FMTS.to_vec() } else { vec![*rng.pick(&ALL_FMTS), *rng.pick(&ALL_FMTS)] };
@@ -88,9 +95,19 @@ pub fn run(out: &mut Out, rng: &mut Rng, thorough: bool) {
 				if !clean.ok() {
 					continue;
 				}
-				// --- one transient `Interrupted` from the reader at offset k: the
-				// translation may fail, or retry and give the fault-free output;
-				// it must never succeed with something else (documents dropped).
+				// --- one transient `Interrupted` from the reader at offset k (not in
+				// the property's quantifier, which has readers that KEEP failing;
+				// kept because it exposes swallowed errors): the translation may
+				// fail, or go on and give the fault-free output; it must never
+				// succeed with something else (documents dropped). With detection
+				// a trial that saw the interruption may decline and a later trial
+				// accept the (complete) input: the fault-free output under any
+				// explicit format is accepted there.
+				let alternatives: Vec<Vec<u8>> = if from.is_none() {
+					ALL_FMTS.iter().map(|f| translate(input, &Supply::Reader(vec![]), Some(*f), to)).filter(|o| o.ok()).map(|o| o.output).collect()
+				} else {
+					vec![]
+				};
 				for k in 0..=input.len() {
 					let mut w = FaultWriter::new(None, vec![]);
 					let r = catch(|| {
@@ -100,7 +117,7 @@ pub fn run(out: &mut Out, rng: &mut Rng, thorough: bool) {
 					out.eval("transient_interrupt", &format!("{}{:?}{}{k}", hex(input), from.map(Fmt::name), to.name()), true);
 					let problem = match &r {
 						Err(p) => Some(format!("panicked: {p}")),
-						Ok(Ok(())) if w.accepted != clean.output => {
+						Ok(Ok(())) if w.accepted != clean.output && !alternatives.contains(&w.accepted) => {
 							Some(format!("returned success with output {} instead of {}", hex(&w.accepted), hex(&clean.output)))
 						}
 						_ => None,
